@@ -425,8 +425,8 @@ func registerTree(c *vk.Ctx) {
 	for _, k := range treeKinds {
 		k := k
 		register(&entry{
-			name: "tree.AddRawChanges(" + k.name + ")",
-			what: "ObjectTree.AddRawChanges on a fresh " + k.name + " tree per case (locked by the caller); input = TreeHeadUpdate{heads, changes, snapshotPath}: wire mutants, changes with mutated payload signed again by the author with the CID recomputed, typed hostile parents / snapshot bases / acl heads / identities, hostile payload envelopes",
+			name:  "tree.AddRawChanges(" + k.name + ")",
+			what:  "ObjectTree.AddRawChanges on a fresh " + k.name + " tree per case (locked by the caller); input = TreeHeadUpdate{heads, changes, snapshotPath}: wire mutants, changes with mutated payload signed again by the author with the CID recomputed, typed hostile parents / snapshot bases / acl heads / identities, hostile payload envelopes",
 			seeds: addSeeds, worker: newWorker, extra: addExtra,
 			opts: func(thorough bool) mutate.Opts {
 				return mutate.Opts{Kinds: "B1 B2 B3 F1", AllBytes: thorough && k.name == "verifying", Depth: 4, RepMax: 128 << 10}
